@@ -1296,6 +1296,32 @@ pub fn check_reference(prop: &str, scn: &Scenario, out: &WorldOut, stats: &mut B
     v
 }
 
+/// Bounded progress for answers (C08 "a call that expects a reply gets one", C18 "a flooding client cannot starve
+/// the others"): the answer to a call that the service has handled must be on its way to the client before a
+/// number of further `handle()` invocations that depends on the number of connections, not on how long another
+/// client keeps the server busy. (The pinned tree writes the answer before it looks at the next call; a server that
+/// holds answers back while anybody has calls buffered starves the client that is waiting for its one reply.)
+pub fn reply_latency(prop: &str, scn: &Scenario, out: &WorldOut, stats: &mut BTreeMap<String, u64>) -> Vec<(String, String)> {
+    let mut v = Vec::new();
+    let bound = 3 * (scn.conns.len() + 1) + 6;
+    for (k, l) in out.log.iter().enumerate() {
+        let c = l.client as usize;
+        if l.frames_written.is_empty() || l.oneway || l.kind == Kind::Sub || c >= scn.conns.len() || scn.conns[c].faulty || scn.conns[c].fail_write_at.is_some() {
+            continue;
+        }
+        let Some(later) = out.log.get(k + bound) else { continue };
+        *stats.entry("answers_checked_for_latency".into()).or_insert(0) += 1;
+        if later.frames_written.get(c).copied().unwrap_or(0) <= l.frames_written[c] {
+            v.push((
+                format!("{prop}/answer-held-back-while-other-calls-are-served"),
+                format!("call #{} of conn{c} was handled at tick {}; {bound} calls later (tick {}) nothing had been written to conn{c} yet", l.seq, l.tick, later.tick),
+            ));
+            break;
+        }
+    }
+    v
+}
+
 /// Bounded progress for stream items under sustained load (C10 "every item is delivered", C18 "a flooding
 /// client cannot starve the others"): an item that a service-side stream produced while calls keep coming
 /// must reach its client after a number of further `handle()` invocations that is bounded by the shape of
